@@ -86,7 +86,7 @@ fn main() {
                             break;
                         }
                         let (plan, tape) = runner::generate(scn.as_ref(), tier, seed, i);
-                        let o = scn.run(&plan, tape, false);
+                        let o = runner::run_isolated(scn.as_ref(), &plan, tape, false);
                         out.lock().unwrap()[i as usize] = o.digest;
                     });
                 }
@@ -136,7 +136,7 @@ fn main() {
             let seed = env_u64("VERIF_SEED").unwrap_or(20261003);
             let (plan, tape) = runner::generate(scn.as_ref(), tier, seed, idx);
             println!("plan: {}", serde_json::to_string(&plan).unwrap());
-            let out = scn.run(&plan, tape, true);
+            let out = runner::run_isolated(scn.as_ref(), &plan, tape, true);
             for e in &out.events {
                 println!("  {}", e);
             }
